@@ -200,7 +200,7 @@ func buildArch(dir string, names []string, prot map[string][]byte, s, r, g int, 
 	ents, _ := ioutil.ReadDir(dir)
 	for _, e := range ents {
 		n := e.Name()
-		if strings.HasPrefix(n, base+".vol") && strings.HasSuffix(n, ".par2") {
+		if strings.HasPrefix(n, base+".") && strings.HasSuffix(n, ".par2") && n != base+".par2" { // what a reader discovers beside the index
 			b, err := ioutil.ReadFile(filepath.Join(dir, n))
 			if err != nil {
 				return nil, err
